@@ -21,7 +21,7 @@ class C03(Prop):
             "(stratified: handshake packets, packets inside spanning records, after key changes), thorough enumerates "
             "every packet/position/subset; non-trivial = the fault changed the capture or key log; distinct = (scenario, fault)")
     reach = ["victim_tls", "victim_quic", "bystander_quic", "fault_in_handshake", "fault_in_spanning_record",
-             "keydrop_subset", "late_start_mid_record", "flip_in_record_header", "flip_in_handshake_msg", "flip_aimed_at_hello_or_quic_header"]
+             "keydrop_subset", "late_start_mid_record", "flip_in_record_header", "flip_in_handshake_msg", "flip_aimed_at_hello_or_quic_header", "flows_share_a_server"]
 
     def plan(self, tier):
         p = super().plan(tier)
@@ -33,8 +33,35 @@ class C03(Prop):
     def gen(self, seed, idx, tier):
         R = Rng(seed, "C03")
         cfg = {"records_max": 6, "len_max": 2500, "isn_wrap": False, "seg_pct": 70, "quic_pct": 35,
-               "quic": {"small": True}}
-        spec = gen.gen_mixed_world(R.fork("world"), cfg, nconn=R.range(2, 4))
+               "net": {"dup_late": 50, "dup_rto": 50, "dup": 30, "_D": 3}, "net_pct": 50,
+               "quic": {"small": True, "zero_cid_pct": 30, "hs_dup_pct": 20}}
+        if R.chance(35):
+            # flows that share a server (same server ip:port, different clients), started one after the other, so that a
+            # capture starting late holds one flow without its handshake next to a complete one
+            from .. import quicpeer
+            from .base import apply_segmentation
+            used = set()
+            conns = []
+            pol = R.choice(["staggered", "sequential", "concurrent"])
+            for j in range(R.range(2, 4)):
+                kw = {}
+                c2 = dict(cfg, policy=pol)
+                if conns:
+                    kw = {"server_ip": conns[0]["s"]["ip"], "server_port": conns[0]["s"]["port"]}
+                    c2["v6_pct"] = 100 if conns[0]["v6"] else 0
+                want_quic = (conns[0]["proto"] == "quic") if conns else R.chance(55)
+                if want_quic:
+                    c = quicpeer.gen_quic_conn(R.fork("q", j), j, dict(cfg["quic"], policy=pol, v6_pct=c2.get("v6_pct", 30)), used, **kw)
+                else:
+                    c = gen.gen_tls_conn(R.fork("conn", j), j, c2, used, **kw)
+                    if R.chance(60):
+                        apply_segmentation(R.fork("seg", j), c, net=cfg["net"] if R.chance(50) else None)
+                if conns:
+                    c["s"]["mac"] = conns[0]["s"]["mac"]
+                conns.append(c)
+            spec = {"conns": conns, "tap": gen.gen_tap(R.fork("tap")), "policy": pol, "shared_server": True}
+        else:
+            spec = gen.gen_mixed_world(R.fork("world"), cfg, nconn=R.range(2, 4))
         spec["prop"] = "C03"
         spec["tier"] = tier
         spec["victim"] = spec["conns"][R.below(len(spec["conns"]))]["id"]
@@ -193,6 +220,8 @@ class C03(Prop):
         vid = spec["victim"]
         vconn = [c for c in spec["conns"] if c["id"] == vid][0]
         out.count("reach:victim_" + vconn["proto"])
+        if spec.get("shared_server"):
+            out.count("reach:flows_share_a_server")
         if any(c["proto"] == "quic" and c["id"] != vid for c in spec["conns"]):
             out.count("reach:bystander_quic")
         out.sample = {"seed": spec.get("seed"), "victim": describe_conn(vconn),
